@@ -19,6 +19,25 @@ CLAIMED = {
              "rejection, case-insensitivity, dotted round trip, subdomain = suffix, zone selection), proved for all inputs; "
              "model tied to the Rust code by a differential stream over boundary-heavy generated inputs.",
         design="5/C16", technique="Coq proof over executable model + model/impl correspondence (extraction)"),
+    "C05": dict(
+        text="(placeholder, to be refined) Theorems about the Gallina model of SharedCache/Cache/PartitionedCache: the structural "
+             "invariant is preserved by every operation and history, the model refines an abstract map from (name, type, data) "
+             "to expiry instant, and the C05 corollaries (TTL 0 never stored, re-insert restarts the lifetime without duplicating, "
+             "nothing expired is returned, reported TTL <= time left, live records are returned); model tied to the Rust code by "
+             "whole-state comparison after every operation of generated histories under a virtual clock.",
+        note="Thread schedules and std::sync::Mutex are outside the model (each SharedCache method is one critical section). "
+             "PriorityQueue tie-breaking among equal instants is a parameter of the model.",
+        design="5/C05 and C15", technique="Coq proof over executable model + model/impl correspondence (extraction)"),
+    "C15": dict(
+        text="(placeholder, to be refined) Theorems about the Gallina model of SharedCache/Cache/PartitionedCache: the structural "
+             "invariant (record count = number of distinct entries, per-name sizes, next_expiry, both queues) is preserved by "
+             "every operation and history, the model refines an abstract map, and the C15 corollaries about prune (nothing expired "
+             "left, size bound, exact report, whole names in LRU order and only while over size, termination); model tied to the "
+             "Rust code by whole-state comparison after every operation of generated histories under a virtual clock.",
+        note="Thread schedules and std::sync::Mutex are outside the model (each SharedCache method is one critical section; the "
+             "thorough tier of C15 hammers one cache from 2..8 threads and checks the invariant at quiescence). PriorityQueue "
+             "tie-breaking among equal instants is a parameter of the model.",
+        design="5/C05 and C15", technique="Coq proof over executable model + model/impl correspondence (extraction)"),
 }
 
 NA_REASON = "not yet implemented in this revision of the framework (planned: see DESIGN.md section 9); not claimed"
